@@ -32,6 +32,7 @@ def capacity(
     c0: int, c1: int, c2: int, c3: int,
     rev: bool,
     s0: int, s1: int, s2: int, s3: int, s4: int, s5: int, s6: int, s7: int, s8: int, s9: int,
+    total2: int, q0: int, q1: int, q2: int, q3: int,
 ) -> bool:
     """After every step, the requests of the jobs whose process is running sum
     to at most the token's total (and so do the counts recorded on disk).
@@ -42,7 +43,7 @@ def capacity(
         # counts are written to token.info / *.token files: concrete per shard
         total = SHARD["total"]
         r0, r1, r2, r3 = (SHARD["reqs"] + [1, 1, 1, 1])[:4]
-    sc = schedlib.drive(SHARD, total, [r0, r1, r2, r3], [c0, c1, c2, c3], rev, [s0, s1, s2, s3, s4, s5, s6, s7, s8, s9])
+    sc = schedlib.drive(SHARD, total, [r0, r1, r2, r3], [c0, c1, c2, c3], rev, [s0, s1, s2, s3, s4, s5, s6, s7, s8, s9], total2=total2, rs2=[q0, q1, q2, q3])
     if sc is None:
         return True
     ok = not any("capacity" in v for v in sc.violations)
@@ -78,6 +79,10 @@ def conditions(tier):
         shapes += [("indep3", [1, 1, 1]), ("fork3", [1, 1, 1]), ("diamond4", [1, 1, 1, 1]), ("two2", [1, 1, 1, 1])]
     for sh, mask in shapes:
         conds.append({"name": f"process/{sh}-{''.join(map(str, mask))}", "func": "capacity", "shard": {"shape": sh, "K": K, "token": mask}, "timeout": tmo})
+    # two tokens: a job needing both can take one and fail on the other
+    two = [("indep2", [1, 1], [1, 0]), ("indep2", [1, 1], [1, 1]), ("indep3", [1, 1, 0], [1, 0, 1])] if tier == "quick" else [("indep2", [1, 1], [1, 0]), ("indep2", [1, 1], [1, 1]), ("indep3", [1, 1, 0], [1, 0, 1]), ("indep3", [1, 1, 1], [1, 1, 1]), ("chain3", [1, 1, 1], [0, 1, 1])]
+    for sh, m1, m2 in two:
+        conds.append({"name": f"two-tokens/{sh}-{''.join(map(str, m1))}-{''.join(map(str, m2))}", "func": "capacity", "shard": {"shape": sh, "K": K, "token": m1, "token2": m2}, "timeout": tmo})
     for total, reqs in _filecombos(2, 3 if tier == "thorough" else 2) + ([] if tier == "quick" else []):
         conds.append({"name": f"file/indep2-t{total}r{''.join(map(str, reqs))}", "func": "capacity", "shard": {"shape": "indep2", "K": K, "token": [1, 1], "token_kind": "file", "total": total, "reqs": reqs}, "timeout": tmo})
     if tier == "thorough":
@@ -86,7 +91,9 @@ def conditions(tier):
     heavy = ("indep2", "join3", "indep3", "mixed3", "diamond4", "fork3", "two2")
     out = []
     for c in conds:
-        if c["shard"].get("shape") in heavy and c["shard"].get("token_kind") != "file":
+        if c["shard"].get("token2"):
+            out.extend(schedlib.with_prefixes(c, 3 if tier == "quick" else 4))
+        elif c["shard"].get("shape") in heavy and c["shard"].get("token_kind") != "file":
             out.extend(schedlib.with_prefixes(c, 2 if tier == "quick" else 3))
         else:
             out.append(c)
